@@ -173,7 +173,8 @@ def gen_deck(rng):
     shared_tr = []
     poses = {}
     info = {'lattice': False, 'unions': 0, 'impure_unions': 0, 'dups': 0,
-            'helper_twin': False, 'depth': depth, 'slivers': 0}
+            'helper_twin': False, 'depth': depth, 'slivers': 0,
+            'shared_literals': 0}
 
     def new_cid():
         cid = next_cid[0]
@@ -243,7 +244,19 @@ def gen_deck(rng):
                         base = rng.choice(poses[univ])
                         base = dck['transforms'][base[1]] \
                             if isinstance(base, tuple) else base
-                        if rng.random() < 0.7:
+                        r2 = rng.random()
+                        if r2 < 0.35:
+                            # a sibling pose: every coefficient as before but one
+                            # translation coordinate, taken from a small pool of
+                            # whole numbers (-1 next to -2 in particular)
+                            o = list(base['O'])
+                            i = rng.randrange(3)
+                            o[i] = {-1.0: -2.0, -2.0: -1.0}.get(
+                                o[i], rng.choice([-1.0, -2.0, 1.0, 2.0]))
+                            tr = dict(base)
+                            tr['O'] = tuple(o)
+                            tr['print'] = list(o) + list(base['print'][3:])
+                        elif r2 < 0.8:
                             mat = deckmod.rotation(rng.randrange(3),
                                                    rng.choice([90, 180, 30, -60]))
                             tr = deckmod.make_tr(base['O'], mat, star=False)
@@ -252,11 +265,38 @@ def gen_deck(rng):
                             shift = [v + rng.choice([0.5, -1.0]) for v in base['O']]
                             tr['O'] = tuple(shift)
                             tr['print'] = list(shift) + list(base['print'][3:])
+                    elif tr is not None and isinstance(tr, dict) \
+                            and tr.get('B') is None and rng.random() < 0.4:
+                        # first pose of this universe: a translation by whole
+                        # numbers, so that siblings differ by one unit
+                        o = [rng.choice([0.0, -1.0, -2.0, 1.0]) for _ in range(3)]
+                        tr = deckmod.make_tr(o)
                     if tr is not None:
                         poses.setdefault(univ, []).append(tr)
                     cell['fill'] = {'u': univ, 'tr': tr}
                     cell['mat'], cell['rho'] = 0, None
                 dck['cells'].append(cell)
+    # a filler cell bounded by the same surface, with the same sign, as the cell
+    # it fills (no transformation in between): harmless for the geometry, but
+    # the two copies meet in one intersection once both definitions are inlined
+    for cont in [c for c in dck['cells'] if c.get('fill') and not c.get('lat')]:
+        if cont['fill'].get('tr') is not None or cont.get('trcl') is not None \
+                or rng.random() < 0.2:
+            continue
+        expr = cont['expr']
+        lits = [expr[1]] if expr[0] == 's' else \
+            [e[1] for e in expr[1:] if e[0] == 's'] if expr[0] == '*' else []
+        fillers = [c for c in dck['cells'] if c['u'] == cont['fill'].get('u')
+                   and not c.get('lat') and c.get('trcl') is None]
+        if not lits or not fillers:
+            continue
+        lit = rng.choice(lits)
+        target = rng.choice(fillers)
+        info['shared_literals'] += 1
+        if target['expr'][0] == '*':
+            target['expr'] = target['expr'] + (deckmod.S(lit),)
+        else:
+            target['expr'] = ('*', target['expr'], deckmod.S(lit))
     # duplicate surfaces: other spellings of a surface under a new number,
     # used instead of the original in some places
     plain = [s for s in dck['surfaces']]
